@@ -69,6 +69,10 @@ func c06Eval(base, ref, kind string) (*fw.Finding, bool) {
 		return nil, false
 	}
 	b := impl.ObserveFull(bu)
+	// "a base with an opaque path" is decided from the base's TEXT, not from the implementation's own flag (which
+	// is exactly what a defect may get wrong): a path is opaque iff the serialization does not continue with '/'
+	// after "scheme:" (a list path either follows "//authority" or starts with '/')
+	b.Opaque = !strings.HasPrefix(b.Href[len(b.Protocol):], "/")
 	res := r[0]
 	switch kind {
 	case "empty":
